@@ -12,6 +12,7 @@ import ast
 
 from sa.core.common import AnalysisError, Collector
 from sa.core.pyfacts import Repo, arg, call_name, const_str, kwarg, src, walk_no_nested
+from sa.core.paths import guards, parent_map
 from sa.core.scope_typestate import ScopeInterp
 from sa.props._tr import check_container_elements, cursor_actions, defs_of, resolve_name, strip_cast, visitor_methods
 
@@ -281,6 +282,23 @@ def check_first(col, repo, si, m):
         and src(att[0].func.value.args[0]) == "-1" and src(resolve_name(fn, att[0].func.value.func.value)) == src(sc)
     col.add("C04.R4", f.short, "failure-if-attached-after-the-loop", oka,
             "the throwing if must be appended to the last block of the outside scope (frame_statements(-1)), i.e. after the loop it follows", f.loc)
+    # where the guard goes when the element is a plain value: inside the sequence's own loop and filters.  The value's scope alone is not
+    # enough - a value that does not use the iterator (Select(lambda t: j.pt())) was computed further out, and a guard placed there is
+    # outside the inner loop and its Where: the emptiness test can then never fire
+    seqv = [n_.targets[0].id for n_ in walk_no_nested(fn) if isinstance(n_, ast.Assign) and isinstance(n_.value, ast.Call) and call_name(n_.value) == "as_sequence"
+            and isinstance(n_.targets[0], ast.Name)]
+    pmf_ = parent_map(fn)
+    moves = [c for c in walk_no_nested(fn) if isinstance(c, ast.Call) and call_name(c) == "set_scope"]
+    plain = [c for c in moves if any("cpp_sequence" in src(t) and not tr_ for t, tr_ in guards(fn, c, pmf_))]
+    inside = False
+    if len(seqv) == 1 and len(plain) == 1:
+        tgt = plain[0].args[0]
+        names = {x.id for x in ast.walk(tgt) if isinstance(x, ast.Name)}
+        exprs = [tgt] + [d for nm in names for d in defs_of(fn, nm)]
+        inside = any(src(e).replace(" ", "") == f"{seqv[0]}.scope()" or f"{seqv[0]}.scope()" in src(e) for e in exprs)
+    col.add("C04.R4", f.short, "guard-inside-the-sequence's-own-loop-and-filters", inside,
+            "for a plain element the first-element block must be placed using the sequence's scope (seq.scope(), inside its loop and Where), "
+            "not only the scope the value was computed in", f.loc)
     # event order: declare flag -> move to sequence-value scope -> push guard (left open) -> attach failure
     for recs, end, st in si.run(f):
         if st == "raise":
@@ -288,7 +306,7 @@ def check_first(col, repo, si, m):
         acts = [r for r in recs if r.kind in ("push", "pop", "restore", "set-derived", "nested", "declare-on")]
         kinds = [(r.kind, r.what[:45]) for r in acts]
         ok = [k for k, _ in kinds] == ["nested", "declare-on", "set-derived", "push"] and acts[-1].what == "iftest" and \
-            src(acts[-1].arg) == gname and (acts[2].what.endswith(".scope()") or acts[2].what.endswith(".scope()[-1]"))
+            src(acts[-1].arg) == gname and (".scope()" in acts[2].what or _names_are_scopes(fn, acts[2].arg))
         col.add("C04.R4", f.short, "order:source,flag,move,guard-open", ok, f"events {kinds}", f.loc)
     # the value returned is re-scoped inside the guard
     pub = [c for c in ast.walk(fn) if isinstance(c, ast.Call) and call_name(c) == "set_rep"]
@@ -311,3 +329,10 @@ def check_subscript(col, repo, m):
     g = [n for n in walk_no_nested(f.node) if isinstance(n, ast.If) and "cpp_collection" in src(n.test)]
     ok = len(g) == 1 and any(isinstance(r, ast.Raise) for r in g[0].body) and isinstance(g[0].test, ast.UnaryOp)
     col.add("C04.R5", f.short, "non-collection-index-refused", ok, "indexing something that is not a collection must raise", f.loc)
+
+
+def _names_are_scopes(fn, call) -> bool:
+    """the argument of a set_scope call is built only from locals that hold `<something>.scope()` values"""
+    a = call.args[0] if isinstance(call, ast.Call) and call.args else call
+    names = {x.id for x in ast.walk(a) if isinstance(x, ast.Name)} if a is not None else set()
+    return bool(names) and all(defs_of(fn, nm) and all(src(d).endswith(".scope()") for d in defs_of(fn, nm)) for nm in names)
